@@ -135,7 +135,11 @@ def _frame_image(rng, files, exp, idx, unit, x="1cm", y="1cm", reuse=None, missi
     per_quarter_inch = {"cm": 0.635, "in": 0.25, "mm": 6.35, "pt": 18, "pc": 1.5}[u]
 
     def length(k):
-        return f"{round(k * per_quarter_inch, 3):g}{u}"
+        txt = f"{round(k * per_quarter_inch, 3):g}"
+        if srng.random() < 0.4:
+            # the other legal spellings of an ODF length: no digit before, or none after, the decimal point
+            txt = txt[1:] if txt.startswith("0.") else (txt + "." if "." not in txt else txt)
+        return f"{txt}{u}"
     if not missing:       # a frame whose picture part is absent cannot yield an image; the others are numbered 1..n
         exp.images.append({"sha": im["sha"], "ctype": im["ctype"], "w": 24 * kw, "h": 24 * kh, "unit": unit})
     return (f'<draw:frame draw:name="Image{idx}" svg:x="{x}" svg:y="{y}" svg:width="{length(kw)}" svg:height="{length(kh)}"><draw:image xlink:href="{name}" xlink:type="simple"/></draw:frame>', im)
